@@ -74,11 +74,11 @@ OP_WEIGHTS = {
     "new": 3, "drop": 1, "set": 14, "read": 6, "call": 3, "shift": 6, "clip": 4, "lay": 8, "elem": 5,
     "stat": 3, "stat0": 1, "mov": 3, "fill": 4, "extrap": 2, "nvar": 2, "change": 3, "binop": 9,
     "scalarop": 4, "unary": 3, "hstack": 4, "ishift": 2, "copy": 3, "replace_where": 2, "mixfreq": 2,
-    "describe": 1, "apply": 2, "new_shared": 2,
+    "describe": 1, "apply": 2, "new_shared": 2, "achange": 2, "convert": 2, "cum": 2, "restart": 2, "shape": 3,
 }
 
 MUTATING = {"set", "shift", "clip", "lay", "elem", "stat", "mov", "fill", "extrap", "nvar", "change",
-            "replace_where", "describe"}
+            "replace_where", "describe", "achange", "convert", "cum", "restart", "shape"}
 
 
 class Obj:
@@ -138,6 +138,11 @@ def conforms(real, exp: Exp, ctx: str):
             return ("cover", f"{ctx}: end {end} inconsistent with start {real.start} and {n} rows")
     except Violation:
         raise
+    # the span observers derive from start and rows; read after every operation they also expose a memo of an earlier
+    # span that an in-place operation forgot to drop
+    per = real.periods
+    if len(per) != n or real.num_periods != n or (n and (int(per[0].serial) != lo or int(per[-1].serial) != hi)):
+        return ("cover", f"{ctx}: periods/num_periods report {len(per)} periods" + (f" on serials [{int(per[0].serial)},{int(per[-1].serial)}]" if len(per) else "") + f", start and rows give [{lo},{hi}]")
     if sp is not None and (lo > sp[0] or hi < sp[1]):
         return ("cover", f"{ctx}: reported span serials [{lo},{hi}] does not cover values on [{sp[0]},{sp[1]}]")
     a = min(lo, sp[0]) if sp else lo
@@ -477,7 +482,16 @@ class SeriesWorld(World):
         if h is None:
             return None
         m = self.live[h].model
-        how = rng.choice(["getitem", "get_data", "get_values", "from_until", "props"])
+        how = rng.choice(["getitem", "get_data", "get_values", "from_until", "props", "missing", "data_and_periods",
+                          "iter_dates_values", "variant_from_until"])
+        if how == "iter_dates_values":
+            return {"op": "read", "args": {"h": h, "how": how, "unpack": rng.random() < 0.5}}
+        if how == "variant_from_until":
+            a = self._around(rng, m)
+            return {"op": "read", "args": {"h": h, "how": how, "a": a, "b": a + rng.randint(0, 5),
+                                           "v": rng.choice([None, 0, 1, 2, 5])}}
+        if how == "missing":
+            return {"op": "read", "args": {"h": h, "how": how, "dates": self._gen_dates(rng, m) if rng.random() < 0.6 else None}}
         if how == "from_until":
             a = self._around(rng, m)
             return {"op": "read", "args": {"h": h, "how": how, "a": a, "b": a + rng.randint(0, 5),
@@ -555,6 +569,9 @@ class SeriesWorld(World):
         h = self._pick(rng, actor, self._native)
         if h is None:
             return None
+        if rng.random() < 0.2:
+            fn = rng.choice(sorted(sm.QUANTILES))
+            return self._with_form(rng, {"op": "stat", "args": {"h": h, "fn": fn, "q": rng.choice(sm.QUANTILES[fn])}})
         return self._with_form(rng, {"op": "stat", "args": {"h": h, "fn": rng.choice(sm.STATS)}})
 
     def _gen_stat0(self, actor, val, rng):
@@ -567,7 +584,11 @@ class SeriesWorld(World):
         h = self._pick(rng, actor, self._native)
         if h is None:
             return None
-        return self._with_form(rng, {"op": "mov", "args": {"h": h, "fn": rng.choice(sorted(sm.MOVING)), "window": -rng.randint(1, 4)}})
+        window = -rng.randint(1, 4) if rng.random() < 0.85 else None
+        if rng.random() < 0.2:
+            # the generic form: any reducing function over the window
+            return self._with_form(rng, {"op": "mov", "args": {"h": h, "fn": rng.choice(sorted(sm.GENERIC_WINDOW_FUNCS)), "window": window, "generic": True}})
+        return self._with_form(rng, {"op": "mov", "args": {"h": h, "fn": rng.choice(sorted(sm.MOVING)), "window": window}})
 
     def _gen_fill(self, actor, val, rng):
         h = self._pick(rng, actor, self._native)
@@ -616,6 +637,58 @@ class SeriesWorld(World):
         else:
             shift = rng.choice(["yoy", "soy", "eopy"])
         return self._with_form(rng, {"op": "change", "args": {"h": h, "fn": rng.choice(sorted(sm.CHANGES)), "shift": shift}})
+
+    def _gen_achange(self, actor, val, rng):
+        h = self._pick(rng, actor, self._native)
+        if h is None:
+            return None
+        return self._with_form(rng, {"op": "achange", "args": {"h": h, "fn": rng.choice(sorted(sm.ACHANGES))}})
+
+    def _gen_convert(self, actor, val, rng):
+        h = self._pick(rng, actor, self._native)
+        if h is None:
+            return None
+        return self._with_form(rng, {"op": "convert", "args": {"h": h, "fn": rng.choice(sorted(sm.CONVERSIONS))}})
+
+    def _gen_cum(self, actor, val, rng):
+        h = self._pick(rng, actor, lambda o: self._native(o) and o.model.lo is not None and o.model.n > 0)
+        if h is None:
+            return None
+        m = self.live[h].model
+        args = {"h": h, "fn": rng.choice(sorted(sm.CUMULATIONS)), "k": rng.choice([1, 1, 2, 3]),
+                "initial": rng.choice([None, None, 1.0, 2.0, 0.5]), "span": None}
+        if rng.random() < 0.3:
+            a = rng.randint(m.lo - 2, m.hi + 1)
+            args["span"] = [a, a + rng.randint(0, m.n + 1)]
+        return self._with_form(rng, {"op": "cum", "args": args})
+
+    def _gen_restart(self, actor, val, rng):
+        h = self._pick(rng, actor, lambda o: self._native(o) and o.model.lo is not None and o.model.n > 0)
+        if h is None:
+            return None
+        m = self.live[h].model
+        how = rng.choice(["redate", "redate_old", "set_start"])
+        args = {"h": h, "how": how, "new": m.lo + rng.randint(-6, 6), "old": rng.randint(m.lo - 2, m.hi + 2)}
+        step = {"op": "restart", "args": args}
+        if how != "set_start" and rng.random() < self.cfg["p_func"]:
+            step["args"]["form"] = "func"
+            step["out"] = [self._new_name()]
+        return step
+
+    def _gen_shape(self, actor, val, rng):
+        h = self._pick(rng, actor, self._native)
+        if h is None:
+            return None
+        m = self.live[h].model
+        how = rng.choice(["trim", "trim", "reset", "expand", "shrink", "extract", "extract"])
+        args = {"h": h, "how": how}
+        if how == "expand":
+            args["num"] = m.nv + rng.randint(0, 2)
+        elif how == "shrink":
+            args["num"] = rng.randint(1, m.nv)
+        elif how == "extract":
+            args["cols"] = [rng.randrange(m.nv) for _ in range(rng.randint(1, 3))] if rng.random() < 0.7 else rng.randrange(m.nv)
+        return {"op": "shape", "args": args}
 
     def _gen_binop(self, actor, val, rng):
         a = self._pick(rng, actor, self._native)
@@ -984,6 +1057,43 @@ class SeriesWorld(World):
                     raise Violation("refine", opname, "", "", "has_missing inconsistent")
             return self._exec(step, opname, [("recv", h)], thunk)
         freq = m.freq if m.lo is not None else self.freq
+        if how == "iter_dates_values":
+            want = [(t, [None if math.isnan(x) else float(x) for x in m.get(t)]) for t in m.rows()]
+
+            def thunk():
+                got = []
+                for p, v in s.iter_dates_values(unpack_singleton=a["unpack"]):
+                    if m.nv == 1 and a["unpack"]:
+                        v = [v]
+                    got.append((int(p.serial), [None if math.isnan(x) else float(x) for x in v]))
+                    if freq_letter_of(p) != m.freq:
+                        raise Violation("refine", opname, "", "", "period of another frequency")
+                if got != want:
+                    raise Violation("refine", opname, "", "", f"iteration over periods and values yields {got[:4]}..., the series holds {want[:4]}...")
+            return self._exec(step, opname, [("recv", h)], thunk)
+        if how == "variant_from_until":
+            v = a["v"]
+            col = v if v and v < m.nv else 0      # documented fallback: a missing or too large variant means the first
+            ts = list(range(a["a"], a["b"] + 1))
+            want = np.array([m.get(t)[col] for t in ts], dtype=float)
+
+            def thunk():
+                got = s.get_data_variant_from_until((P(freq, a["a"]), P(freq, a["b"])), v)
+                self._cmp_read(opname, np.asarray(got, dtype=float).reshape(-1), want)
+            return self._exec(step, opname, [("recv", h)], thunk)
+        if how == "missing":
+            d = a["dates"]
+            ts = list(m.rows()) if d is None else self.dates_serials(d, m)
+            block = np.array([m.get(t) for t in ts], dtype=float).reshape(len(ts), m.nv)
+            nan = np.isnan(block)
+            want = (bool(nan.any()), bool(nan.all()), int(np.count_nonzero(nan)))
+
+            def thunk():
+                args = () if d is None else (self.dates_real(d, freq),)
+                got = (s.any_missing(*args), s.all_missing(*args), s.count_missing(*args))
+                if (bool(got[0]), bool(got[1]), int(got[2])) != want:
+                    raise Violation("refine", opname, "", "", f"any/all/count_missing report {got}, the series holds {want}")
+            return self._exec(step, opname, [("recv", h)], thunk)
         vids = self.vids_of(a.get("variants"), m.nv)
         var_real = self.variants_real(a.get("variants"))
         if how == "from_until":
@@ -1002,6 +1112,11 @@ class SeriesWorld(World):
             if how == "getitem":
                 got = s[dr] if var_real is None else s[dr, var_real]
                 self._cmp_read(opname, got, want)
+            elif how == "data_and_periods":
+                got, per = s.get_data_and_periods(dr) if var_real is None else s.get_data_and_periods(dr, var_real)
+                self._cmp_read(opname, got, want)
+                if [int(p.serial) for p in per] != list(ts):
+                    raise Violation("refine", opname, "", "", f"periods returned {[int(p.serial) for p in per]}, requested {list(ts)}")
             elif how == "get_data":
                 got = s.get_data(dr) if var_real is None else s.get_data(dr, var_real)
                 self._cmp_read(opname, got, want)
@@ -1105,9 +1220,10 @@ class SeriesWorld(World):
         h = a["h"]
         o = self.live[h]
         fn = a["fn"]
-        exp = sm.t_stat(o.model, fn)
+        extra = (a["q"],) if "q" in a else ()
+        exp = sm.t_stat(o.model, fn, *extra)
         return self._method_or_func(step, "stat." + fn, [("recv", h)], h, exp,
-                                    lambda: getattr(o.real, fn)(), lambda: getattr(ir, fn)(o.real))
+                                    lambda: getattr(o.real, fn)(*extra), lambda: getattr(ir, fn)(o.real, *extra))
 
     def _do_stat0(self, step, a):
         h = a["h"]
@@ -1128,8 +1244,15 @@ class SeriesWorld(World):
         o = self.live[h]
         fn, w = a["fn"], a["window"]
         exp = sm.t_moving(o.model, fn, w)
+        if w is None:
+            self.probes["moving_window_default_length"] += 1
+        if a.get("generic"):
+            f = sm.GENERIC_WINDOW_FUNCS[fn]
+            return self._method_or_func(step, "mov.moving_window." + fn, [("recv", h)], h, exp,
+                                        lambda: o.real.moving_window(f, window=w), lambda: ir.moving_window(o.real, f, window=w))
+        wa = () if w is None else (w,)
         return self._method_or_func(step, "mov." + fn, [("recv", h)], h, exp,
-                                    lambda: getattr(o.real, fn)(w), lambda: getattr(ir, fn)(o.real, w))
+                                    lambda: getattr(o.real, fn)(*wa), lambda: getattr(ir, fn)(o.real, *wa))
 
     def _do_fill(self, step, a):
         h = a["h"]
@@ -1184,6 +1307,92 @@ class SeriesWorld(World):
         if form == "func":
             return self._exec(step, name + ".func", [("recv", h)], lambda: getattr(ir, fn)(o.real, shift), out=step["out"][0], expect=exp)
         return self._exec(step, name + ".method", [("recv", h)], lambda: getattr(o.real, fn)(shift), recv=h, expect=exp)
+
+    def _do_achange(self, step, a):
+        h = a["h"]
+        o = self.live[h]
+        fn = a["fn"]
+        exp = sm.t_achange(o.model, fn)
+        if a.get("form") == "func":
+            return self._exec(step, "achange." + fn + ".func", [("recv", h)], lambda: getattr(ir, fn)(o.real), out=step["out"][0], expect=exp)
+        return self._exec(step, "achange." + fn + ".method", [("recv", h)], lambda: getattr(o.real, fn)(), recv=h, expect=exp)
+
+    def _do_convert(self, step, a):
+        h = a["h"]
+        o = self.live[h]
+        fn = a["fn"]
+        exp = sm.t_convert(o.model, fn)
+        return self._method_or_func(step, "convert." + fn, [("recv", h)], h, exp,
+                                    lambda: getattr(o.real, fn)(), lambda: getattr(ir, fn)(o.real))
+
+    def _do_cum(self, step, a):
+        h = a["h"]
+        o = self.live[h]
+        m = o.model
+        fn, k, initial, span = a["fn"], a["k"], a["initial"], a["span"]
+        exp = sm.t_cum(m, fn, k, initial, *(span or (None, None)))
+        kw = {}
+        if initial is not None:
+            kw["initial"] = initial
+        if span is not None:
+            kw["span"] = P(m.freq, span[0]) >> P(m.freq, span[1])
+            self.probes["cumulation_on_explicit_span"] += 1
+        name = "cum." + fn
+        if a.get("form") == "func":
+            return self._exec(step, name + ".func", [("recv", h)], lambda: getattr(ir, fn)(o.real, -k, **kw), out=step["out"][0], expect=exp)
+        return self._exec(step, name + ".method", [("recv", h)], lambda: getattr(o.real, fn)(-k, **kw), recv=h, expect=exp)
+
+    def _do_restart(self, step, a):
+        """Moving a series in time: every value keeps its distance from the start, the start becomes the requested period."""
+        h = a["h"]
+        o = self.live[h]
+        m = o.model
+        how = a["how"]
+        new = P(m.freq, a["new"])
+        if how == "redate_old":
+            # the period that used to be `old` becomes `new`
+            exp = sm.t_redate(m, a["new"] - (a["old"] - m.lo))
+            args = (new, P(m.freq, a["old"]))
+        else:
+            exp = sm.t_redate(m, a["new"])
+            args = (new,)
+        name = "restart." + how
+        if a.get("form") == "func":
+            return self._exec(step, name + ".func", [("recv", h)], lambda: ir.redate(o.real, *args), out=step["out"][0], expect=exp)
+        if how == "set_start":
+            def thunk():
+                r = o.real.set_start(new)
+                if r is not o.real:
+                    raise Violation("refine", name, "", "", "set_start is documented to return the receiver")
+            return self._exec(step, name + ".method", [("recv", h)], thunk, recv=h, expect=exp)
+        return self._exec(step, name + ".method", [("recv", h)], lambda: o.real.redate(*args), recv=h, expect=exp)
+
+    def _do_shape(self, step, a):
+        h = a["h"]
+        o = self.live[h]
+        m = o.model
+        how = a["how"]
+        if how == "trim":
+            exp = Exp(m.freq, m.nv, m.cells, tight=True)
+            if m.lo is not None and m.span() != (m.lo, m.hi):
+                self.probes["trim_of_untrimmed_series"] += 1
+            thunk = lambda: o.real.trim()
+        elif how == "reset":
+            exp = Exp(m.freq, m.nv, {}, tight=True)
+            thunk = lambda: o.real.reset()
+        elif how == "expand":
+            exp = sm.t_nvar(m, a["num"])
+            thunk = lambda: o.real.expand_num_variants(a["num"])
+        elif how == "shrink":
+            exp = sm.t_nvar(m, a["num"])
+            if a["num"] == m.nv:
+                self.probes["shrink_to_same_number"] += 1
+            thunk = lambda: o.real.shrink_num_variants(a["num"])
+        else:
+            cols = a["cols"]
+            exp = sm.t_columns(m, cols if isinstance(cols, list) else [cols])
+            thunk = lambda: o.real.extract_variants(cols)
+        return self._exec(step, "shape." + how, [("recv", h)], thunk, recv=h, expect=exp)
 
     _PYOP = {
         "add": lambda x, y: x + y, "sub": lambda x, y: x - y, "mul": lambda x, y: x * y,
